@@ -829,7 +829,7 @@ pub fn to_runout(rep: HistReport, props: &[&str], detail: bool) -> RunOut {
     for (k, v) in rep.counters.iter() {
         out.count(k, *v);
     }
-    if let Some(f) = rep.findings.iter().find(|f| props.contains(&f.prop)) {
+    if let Some(f) = rep.findings.iter().find(|f| props.contains(&f.prop) || props.contains(&format!("{}:{}", f.prop, f.v.class).as_str())) {
         let mut v = f.v.clone();
         v.detail.extend(rep.scenario.iter().cloned());
         v.detail.extend(rep.ops.iter().cloned());
